@@ -26,6 +26,7 @@ def generate(tier, wd, rng):
     # random nested statements beyond the menu
     for _ in range(300 if tier == "quick" else 6000):
         stmts.append(stmtgen.rand_stmt(rng))
+    stmts += stmtgen.fixed_stmts()
     seen = set(); out = []
     for s in stmts:
         k = json.dumps(s, sort_keys=True)
